@@ -662,8 +662,8 @@ func (st *StateDB) Copy() *StateDB {
 	for addr := range st.stateObjectsDirty {
 		if _, exist := state.stateObjects[addr]; !exist {
 			state.stateObjects[addr] = st.stateObjects[addr].deepCopy(state)
-			state.stateObjectsDirty[addr] = struct{}{}
 		}
+		state.stateObjectsDirty[addr] = struct{}{}
 	}
 
 	for hash, logs := range st.logs {
